@@ -137,7 +137,8 @@ fn screened(ctx: &Ctx, rep: &mut Report) {
                     || d.max_z == p.gamma1 - p.beta - 1
                     || d.max_r0 == p.gamma2 - p.beta - 1;
                 if !rare {
-                    return Ok(());
+                    // not a rare event: still run the plain round trip once (the reference signature is paid for)
+                    return check(&c, st);
                 }
                 if d.max_z == p.gamma1 - p.beta - 1 {
                     st.class("rare:max_z=bound-1");
